@@ -207,6 +207,10 @@ pub enum Pres {
     Direct { offset: u8, order_keys: Vec<u8> },
     /// Through the ICCMA'23 reader (keeps duplicate attack lines). Labels are 1..=n.
     Iccma,
+    /// Through the ICCMA'23 reader with ONE attack line repeated `times` times in all (the reader keeps
+    /// every copy, so in- and out-degrees as the code sees them reach `times`; the graph is unchanged). At most 700:
+    /// several encoders are quadratic in the multiplicity by design (2^16 repeats need tens of GB).
+    IccmaRepeated { line: u16, times: u32 },
     /// Through the Aspartix reader; identifiers derived from the index with `style`.
     Apx { style: u8, order_keys: Vec<u8> },
     /// Built by updates with extra arguments inserted and removed again so that ids have holes;
@@ -220,6 +224,7 @@ impl Pres {
         match self {
             Pres::Direct { .. } => "direct",
             Pres::Iccma => "iccma",
+            Pres::IccmaRepeated { .. } => "iccma-repeated-line",
             Pres::Apx { .. } => "apx",
             Pres::Sparse { .. } => "sparse",
         }
@@ -228,10 +233,11 @@ impl Pres {
 
 pub fn pres(nmax: usize) -> BoxedStrategy<Pres> {
     prop_oneof![
-        3 => (0u8..3, vec(any::<u8>(), nmax)).prop_map(|(o, k)| Pres::Direct { offset: o * 7, order_keys: k }),
-        2 => Just(Pres::Iccma),
-        2 => (0u8..4, vec(any::<u8>(), nmax)).prop_map(|(s, k)| Pres::Apx { style: s, order_keys: k }),
-        3 => (vec(any::<u8>(), nmax), vec(any::<u8>(), 1..=3), 0u8..3)
+        60 => (0u8..3, vec(any::<u8>(), nmax)).prop_map(|(o, k)| Pres::Direct { offset: o * 7, order_keys: k }),
+        40 => Just(Pres::Iccma),
+        1 => (any::<u16>(), prop_oneof![6 => 2u32..40, 3 => 250u32..262, 1 => 600u32..700]).prop_map(|(line, times)| Pres::IccmaRepeated { line, times }),
+        40 => (0u8..4, vec(any::<u8>(), nmax)).prop_map(|(s, k)| Pres::Apx { style: s, order_keys: k }),
+        60 => (vec(any::<u8>(), nmax), vec(any::<u8>(), 1..=3), 0u8..3)
             .prop_map(|(k, e, r)| Pres::Sparse { order_keys: k, extra_at: e, readd: r }),
     ]
     .boxed()
@@ -240,9 +246,10 @@ pub fn pres(nmax: usize) -> BoxedStrategy<Pres> {
 /// Compact-id presentations only (what the encoders are fed with).
 pub fn pres_compact(nmax: usize) -> BoxedStrategy<Pres> {
     prop_oneof![
-        3 => (0u8..3, vec(any::<u8>(), nmax)).prop_map(|(o, k)| Pres::Direct { offset: o * 7, order_keys: k }),
-        2 => Just(Pres::Iccma),
-        2 => (0u8..4, vec(any::<u8>(), nmax)).prop_map(|(s, k)| Pres::Apx { style: s, order_keys: k }),
+        60 => (0u8..3, vec(any::<u8>(), nmax)).prop_map(|(o, k)| Pres::Direct { offset: o * 7, order_keys: k }),
+        40 => Just(Pres::Iccma),
+        1 => (any::<u16>(), prop_oneof![6 => 2u32..40, 3 => 250u32..262, 1 => 600u32..700]).prop_map(|(line, times)| Pres::IccmaRepeated { line, times }),
+        40 => (0u8..4, vec(any::<u8>(), nmax)).prop_map(|(s, k)| Pres::Apx { style: s, order_keys: k }),
     ]
     .boxed()
 }
